@@ -247,12 +247,22 @@ def recurrent_shard(variant, T):
     B = len(hs)
     trainable, transforms = variant[:2]
     unequal = len(variant) > 2 and variant[2]  # feedback group of 3 neurons behind a feed-forward group of 2
-    case = {"layer": "RecurrentSerial", "trainable_feedback": trainable, "transforms": transforms, "T": T, "group_sizes": [2, 3 if unequal else 2]}
+    intr = len(variant) > 3 and variant[3]  # input-side transforms on the two recurrent paths, and non-default component names
+    case = {"layer": "RecurrentSerial", "trainable_feedback": trainable, "transforms": transforms, "T": T, "group_sizes": [2, 3 if unequal else 2],
+            "in_transforms_and_names": bool(intr)}
     nfbsz = 3 if unequal else 2
     Wl, Wf = (W2U, W3U) if unequal else (W2, W3)
     kw = {}
     if transforms:
         kw = dict(feedfwd_out_transform=lambda x: x * 2.0, feedback_out_transform=lambda x: -x, lateral_out_transform=lambda x: x + 0.5)
+
+    names = {}
+    if intr:
+        # lateral path sees the inverted feed-forward spikes, feedback path the feedback spikes rolled by one neuron
+        kw = dict(kw, lateral_in_transform=lambda s: (~s,), feedback_in_transform=lambda s: (s.roll(1, -1),),
+                  feedfwd_connection_name="cin", lateral_connection_name="clat", feedback_connection_name="cfb",
+                  feedfwd_neuron_name="nin", feedback_neuron_name="nfb")
+        names = {"feedfwd": "cin", "lateral": "clat", "feedback": "cfb"}
 
     def mk():
         return RecurrentSerial(rdense(B, W1), rdense(B, Wl), rdense(B, Wf), rlif(B, 2, 1.0), rlif(B, nfbsz, 2.0), trainable_feedback=trainable, **kw)
@@ -275,13 +285,18 @@ def recurrent_shard(variant, T):
         except Exception as ex:
             tally.violation(f"exception:forward:RecurrentSerial:{type(ex).__name__}", {**case, "step": t}, repr(ex))
             return tally
-        a, b = ff(xs[t]), fb(prev_fb)
-        ok &= cmp(tally, "recurrent:intermediate", {**case, "step": t, "connection": "feedfwd"}, inter["feedfwd"], a, "captured feed-forward connection output")
-        ok &= cmp(tally, "recurrent:intermediate", {**case, "step": t, "connection": "feedback"}, inter["feedback"], b, "captured feedback connection output")
+        a, b = ff(xs[t]), fb(prev_fb.roll(1, -1) if intr else prev_fb)
+        try:
+            i_ff, i_fb, i_lat = inter[names.get("feedfwd", "feedfwd")], inter[names.get("feedback", "feedback")], inter[names.get("lateral", "lateral")]
+        except KeyError as ex:
+            tally.violation("recurrent:intermediate:names", {**case, "step": t}, f"captured outputs are keyed {sorted(inter)}, missing {ex}")
+            return tally
+        ok &= cmp(tally, "recurrent:intermediate", {**case, "step": t, "connection": "feedfwd"}, i_ff, a, "captured feed-forward connection output")
+        ok &= cmp(tally, "recurrent:intermediate", {**case, "step": t, "connection": "feedback"}, i_fb, b, "captured feedback connection output")
         drive = (a * 2.0 - b) if transforms else (a + b)
         s_ff = nff(drive)
-        l = lat(s_ff)
-        ok &= cmp(tally, "recurrent:intermediate", {**case, "step": t, "connection": "lateral"}, inter["lateral"], l, "captured lateral connection output")
+        l = lat(~s_ff if intr else s_ff)
+        ok &= cmp(tally, "recurrent:intermediate", {**case, "step": t, "connection": "lateral"}, i_lat, l, "captured lateral connection output")
         s_fb = nfb(l + 0.5 if transforms else l)
         prev_fb = s_fb
         ok &= cmp(tally, "recurrent:feedfwd-output", {**case, "step": t}, o_ff, s_ff, "feed-forward spikes")
@@ -304,8 +319,15 @@ def neuron_clear_shard(cname, T):
     B = len(hs)
     case = {"layer": f"Serial[{cname}]", "neuron": cname, "refrac_t": 3.0, "T": T}
 
+    from checks.c03_neurons import ADAPT_THRESH, ADAPT_CURR, get_adapt, set_adapt
+
     def mk():
-        return Serial(rdense(B, W1 * 3.0), CLS[cname]((2,), DT, refrac_t=3.0, batch_size=B, **HP[cname][0]))
+        n = CLS[cname]((2,), DT, refrac_t=3.0, batch_size=B, **HP[cname][0])
+        if cname in ADAPT_THRESH + ADAPT_CURR:
+            # a learned (non-zero) adaptation: clear() keeps it, so a cleared layer replays like a fresh one carrying the same adaptation
+            a = get_adapt(n, cname)
+            set_adapt(n, cname, torch.full_like(a, 0.125) * (1 + torch.arange(a.shape[-1], dtype=a.dtype)))
+        return Serial(rdense(B, W1 * 3.0), n)
 
     try:
         L = mk()
@@ -341,6 +363,7 @@ def run(rep):
         for tr in (False, True):
             jobs.append((recurrent_shard, ((trainable, tr), T)))
             jobs.append((recurrent_shard, ((trainable, tr, True), T)))
+            jobs.append((recurrent_shard, ((trainable, tr, tr, True), T)))
     from checks.c03_neurons import CLS as NEURON_CLS
     for cname in NEURON_CLS:
         jobs.append((neuron_clear_shard, (cname, T)))
